@@ -29,7 +29,9 @@ ALIASES = {"exceptionRespIc": "exceptionResp",           # exception-response ca
            "exceptionRespIcBig": "exceptionResp",
            "getRespLastBlockFF": "getRespLastBlock",      # last-block TRUE encoded as 0xFF (A-XDR: any non-zero octet)
            "getRespLastBlock80": "getRespLastBlock",
-           "getRespLastBlockErrFF": "getRespLastBlockErr"}
+           "getRespLastBlockErrFF": "getRespLastBlockErr",
+           "getRespBlockEmpty": "getRespBlock",           # a block that is not the last one and carries no data
+           "getRespLastBlockEmpty": "getRespLastBlock"}
 
 
 def base_kind(kind):
@@ -59,6 +61,9 @@ def apdu_bytes(kind, variant=0, size=None):
         assert b[3] == 1
         b[3] = 0x80 if kind.endswith("80") else 0xFF
         return bytes(b)
+    if kind in ("getRespBlockEmpty", "getRespLastBlockEmpty"):
+        cls = xdlms.GetResponseWithBlock if kind == "getRespBlockEmpty" else xdlms.GetResponseLastBlock
+        return cls(b"", 1 + variant).to_bytes()
     return sample_object(kind, variant, size).to_bytes()
 
 
